@@ -10,3 +10,4 @@ pub mod registry;
 
 pub mod scn_basic;
 pub mod scn_c13;
+pub mod scn_conc;
